@@ -24,6 +24,12 @@ theorem reposition_perm {tb : Tab K V} (k : K) : (tb.reposition lt? k).m.Perm tb
     · exact repositionM_perm lt tb.m k
     · exact List.Perm.refl _
 
+theorem valueChanged_perm {tb : Tab K V} (k : K) : (tb.valueChanged lt? k).m.Perm tb.m := by
+  unfold valueChanged
+  split
+  · exact List.Perm.refl _
+  · exact reposition_perm lt? k
+
 theorem moveFrontAux_perm {tb : Tab K V} (k : K) (hn : (keys tb.m).Nodup) : (tb.moveFrontAux k).m.Perm tb.m := by
   unfold moveFrontAux; split
   · exact List.Perm.refl _
@@ -56,7 +62,7 @@ theorem putAux_perm {tb : Tab K V} (k : K) (v : V) :
     (tb.putAux lt? k v).m.Perm (if has tb.m k then setVal tb.m k v else (k, v) :: tb.m) := by
   unfold putAux
   by_cases hh : has tb.m k = true
-  · simp only [hh, if_true]; exact reposition_perm lt? k
+  · simp only [hh, if_true]; exact valueChanged_perm lt? k
   · simp only [hh]; exact linkNew_perm lt? tb k v
 
 /- ---------- map laws ---------- -/
@@ -118,7 +124,7 @@ theorem length_removeKey {tb : Tab K V} (k : K) (hn : (keys tb.m).Nodup) :
 
 theorem keys_putAux_plain (tb : Tab K V) (k : K) (v : V) :
     keys (tb.putAux none k v).m = if k ∈ keys tb.m then keys tb.m else keys tb.m ++ [k] := by
-  unfold putAux reposition linkNew
+  unfold putAux valueChanged reposition linkNew
   by_cases hh : has tb.m k = true
   · simp [hh, has_iff.mp hh]
   · have hk : k ∉ keys tb.m := fun hm => hh (has_iff.mpr hm)
